@@ -171,6 +171,9 @@ def run(ctx):
         infoL = cc.run_driver(ctx, binp, {"mode": "info", "powers": powers, "byz": [], "maxround": 14}, "infoL")
         if (tuple(powers), infoL["names"].index(byzl[0])) in done:
             continue
+        if 3 * sum(infoL["powers"][b] for b in byzl) >= sum(infoL["powers"].values()):
+            log("library group %s/%s skipped: the faulty validators hold 1/3 or more of the power" % (powers, byzl))
+            continue
         scheds = [{"id": 100000 + k, "steps": a["steps"]} for k, a in enumerate(lst)]
         tag = "lib" + "".join(str(x) for x in powers) + byzl[0]
         inp = {"mode": "replay", "dups": 5, "powers": powers, "byz": byzl, "maxround": 9, "scheds": scheds, "synctail": True, "byzafter": True,
